@@ -24,6 +24,7 @@ Check(i) == LET o == Obs[i] IN
    /\ Chk(DtypeStep(o), "C05", "DtypeStep", o)
    /\ Chk(Conforms(o.post) => SelfAssign(o), "C05", "SelfAssign", o)
    /\ Chk(RefusalClass(o), "C05", "RefusalIsValueError", o)
+   /\ Chk(NothingDropped(o), "C05", "AcceptedInputIsStoredCompletely", o)
    /\ Chk(Atomic(o), "C05", "RefusedChangesNothing", o)
    /\ Chk(Atomic(o), "C06", "Atomic", o)
    /\ Chk(CloneOK(o), "C11", "PropertyClone", o)
